@@ -87,11 +87,11 @@ impl ElixirDate {
         }
 
         let map = term.as_map()?;
-        let year = map.get(&OwnedTerm::Atom(Atom::new("year")))?.as_integer()? as i32;
+        let year = map.get(&OwnedTerm::Atom(Atom::new("year")))?.as_integer()?.try_into().ok()?;
         let month = map
             .get(&OwnedTerm::Atom(Atom::new("month")))?
-            .as_integer()? as u8;
-        let day = map.get(&OwnedTerm::Atom(Atom::new("day")))?.as_integer()? as u8;
+            .as_integer()?.try_into().ok()?;
+        let day = map.get(&OwnedTerm::Atom(Atom::new("day")))?.as_integer()?.try_into().ok()?;
 
         Some(Self { year, month, day })
     }
@@ -215,18 +215,18 @@ impl ElixirTime {
         }
 
         let map = term.as_map()?;
-        let hour = map.get(&OwnedTerm::Atom(Atom::new("hour")))?.as_integer()? as u8;
+        let hour = map.get(&OwnedTerm::Atom(Atom::new("hour")))?.as_integer()?.try_into().ok()?;
         let minute = map
             .get(&OwnedTerm::Atom(Atom::new("minute")))?
-            .as_integer()? as u8;
+            .as_integer()?.try_into().ok()?;
         let second = map
             .get(&OwnedTerm::Atom(Atom::new("second")))?
-            .as_integer()? as u8;
+            .as_integer()?.try_into().ok()?;
 
         let (microsecond_value, microsecond_precision) =
             if let Some(us) = map.get(&OwnedTerm::Atom(Atom::new("microsecond"))) {
                 if let Some((val, prec)) = us.as_2_tuple() {
-                    (val.as_integer()? as u32, prec.as_integer()? as u8)
+                    (val.as_integer()?.try_into().ok()?, prec.as_integer()?.try_into().ok()?)
                 } else {
                     (0, 0)
                 }
@@ -409,23 +409,23 @@ impl ElixirNaiveDateTime {
         }
 
         let map = term.as_map()?;
-        let year = map.get(&OwnedTerm::Atom(Atom::new("year")))?.as_integer()? as i32;
+        let year = map.get(&OwnedTerm::Atom(Atom::new("year")))?.as_integer()?.try_into().ok()?;
         let month = map
             .get(&OwnedTerm::Atom(Atom::new("month")))?
-            .as_integer()? as u8;
-        let day = map.get(&OwnedTerm::Atom(Atom::new("day")))?.as_integer()? as u8;
-        let hour = map.get(&OwnedTerm::Atom(Atom::new("hour")))?.as_integer()? as u8;
+            .as_integer()?.try_into().ok()?;
+        let day = map.get(&OwnedTerm::Atom(Atom::new("day")))?.as_integer()?.try_into().ok()?;
+        let hour = map.get(&OwnedTerm::Atom(Atom::new("hour")))?.as_integer()?.try_into().ok()?;
         let minute = map
             .get(&OwnedTerm::Atom(Atom::new("minute")))?
-            .as_integer()? as u8;
+            .as_integer()?.try_into().ok()?;
         let second = map
             .get(&OwnedTerm::Atom(Atom::new("second")))?
-            .as_integer()? as u8;
+            .as_integer()?.try_into().ok()?;
 
         let (microsecond_value, microsecond_precision) =
             if let Some(us) = map.get(&OwnedTerm::Atom(Atom::new("microsecond"))) {
                 if let Some((val, prec)) = us.as_2_tuple() {
-                    (val.as_integer()? as u32, prec.as_integer()? as u8)
+                    (val.as_integer()?.try_into().ok()?, prec.as_integer()?.try_into().ok()?)
                 } else {
                     (0, 0)
                 }
@@ -671,23 +671,23 @@ impl ElixirDateTime {
         }
 
         let map = term.as_map()?;
-        let year = map.get(&OwnedTerm::Atom(Atom::new("year")))?.as_integer()? as i32;
+        let year = map.get(&OwnedTerm::Atom(Atom::new("year")))?.as_integer()?.try_into().ok()?;
         let month = map
             .get(&OwnedTerm::Atom(Atom::new("month")))?
-            .as_integer()? as u8;
-        let day = map.get(&OwnedTerm::Atom(Atom::new("day")))?.as_integer()? as u8;
-        let hour = map.get(&OwnedTerm::Atom(Atom::new("hour")))?.as_integer()? as u8;
+            .as_integer()?.try_into().ok()?;
+        let day = map.get(&OwnedTerm::Atom(Atom::new("day")))?.as_integer()?.try_into().ok()?;
+        let hour = map.get(&OwnedTerm::Atom(Atom::new("hour")))?.as_integer()?.try_into().ok()?;
         let minute = map
             .get(&OwnedTerm::Atom(Atom::new("minute")))?
-            .as_integer()? as u8;
+            .as_integer()?.try_into().ok()?;
         let second = map
             .get(&OwnedTerm::Atom(Atom::new("second")))?
-            .as_integer()? as u8;
+            .as_integer()?.try_into().ok()?;
 
         let (microsecond_value, microsecond_precision) =
             if let Some(us) = map.get(&OwnedTerm::Atom(Atom::new("microsecond"))) {
                 if let Some((val, prec)) = us.as_2_tuple() {
-                    (val.as_integer()? as u32, prec.as_integer()? as u8)
+                    (val.as_integer()?.try_into().ok()?, prec.as_integer()?.try_into().ok()?)
                 } else {
                     (0, 0)
                 }
@@ -703,10 +703,10 @@ impl ElixirDateTime {
             .as_erlang_string()?;
         let utc_offset = map
             .get(&OwnedTerm::Atom(Atom::new("utc_offset")))?
-            .as_integer()? as i32;
+            .as_integer()?.try_into().ok()?;
         let std_offset = map
             .get(&OwnedTerm::Atom(Atom::new("std_offset")))?
-            .as_integer()? as i32;
+            .as_integer()?.try_into().ok()?;
 
         Some(Self {
             year,
